@@ -416,6 +416,46 @@ func registerEnv(m *Machine) {
 	for _, n := range []string{"Read", "Write", "SetDeadline", "SetReadDeadline", "SetWriteDeadline", "Close", "RemoteAddr", "LocalAddr"} {
 		I["(*net.conn)."+n] = I["(*net.TCPConn)."+n]
 	}
+	// non-cryptographic randomness and UUIDs: a deterministic sequence of distinct values
+	// (identifiers are only required to be distinct; their unpredictability is not modelled)
+	next := func(m *Machine) uint64 {
+		v, _ := m.ghost["env.rand.counter"].(*Term)
+		n := uint64(0)
+		if v != nil {
+			n = v.C
+		}
+		n++
+		m.ghost["env.rand.counter"] = c.BV(n, 64)
+		return n
+	}
+	I["math/rand.Int31"] = func(m *Machine, fr *frame, a []Value, _ *ssa.CallCommon) Value {
+		return c.BV((1000003*next(m)+12345)&0x7fffffff, 32)
+	}
+	I["math/rand.Uint32"] = func(m *Machine, fr *frame, a []Value, _ *ssa.CallCommon) Value {
+		return c.BV((1000003*next(m)+12345)&0xffffffff, 32)
+	}
+	I["math/rand.Int31n"] = func(m *Machine, fr *frame, a []Value, _ *ssa.CallCommon) Value {
+		n := m.concretize(a[0].(*Term), "Int31n")
+		if n == 0 || n >= 1<<31 {
+			m.goPanic("invalid argument to Int31n")
+		}
+		return c.BV((1000003*next(m)+12345)%n, 32)
+	}
+	I["math/rand.Intn"] = func(m *Machine, fr *frame, a []Value, _ *ssa.CallCommon) Value {
+		n := m.concretize(a[0].(*Term), "Intn")
+		if n == 0 || n >= 1<<62 {
+			m.goPanic("invalid argument to Intn")
+		}
+		return c.BV((1000003*next(m)+12345)%n, 64)
+	}
+	I["github.com/google/uuid.New"] = func(m *Machine, fr *frame, a []Value, _ *ssa.CallCommon) Value {
+		n := next(m)
+		arr := make(Array, 16)
+		for i := range arr {
+			arr[i] = c.BV((n>>(uint(i%8)*8))&0xff^uint64(0xa5), 8)
+		}
+		return arr
+	}
 	// randomness
 	I["crypto/rand.Read"] = func(m *Machine, fr *frame, a []Value, _ *ssa.CallCommon) Value {
 		buf := a[0].(Slice)
